@@ -33,7 +33,7 @@ def run(chk):
     if r.violated and rep["mismatch_count"] == 0:
         chk.violation("spec-level: Derive.tla invariant %s fails although the corpus agrees with the model" % r.violated, {"tlc": r.out[-3000:]})
     d.judge_trace(chk, "trace/Trace_Derive.tla", "trace/Trace_Derive.cfg", "c15d", div, show, count=False)
-    chk.rule = ("A compiled corpus of 4 derive inputs (generated together with their descriptions by lib/corpus_gen.py) spanning bool, counter, "
+    chk.rule = ("A compiled corpus of 5 derive inputs (generated together with their descriptions by lib/corpus_gen.py) spanning bool, counter, "
                 "required, Option, Option<Option>, Vec, Option<Vec>, default_value_t, value enum (aliases, skipped variant, ignore_case), "
                 "positional, positional Vec, value_delimiter, global, flatten, required and optional subcommand enums with aliases; TLC "
                 "enumerates every argv up to 2 (quick) / 3 (thorough) tokens over each type's alphabet and, from every successfully parsed value, "
